@@ -361,6 +361,8 @@ def check(run):
     gen(run, w)
     trace(run, w)
     title_spellings(run)
+    from harness.props import e2p
+    e2p.check(run, w)           # sessions of several executors over the one translation (spec/E2P.tla)
 
 
 def title_spellings(run):
